@@ -59,15 +59,17 @@ TrPoint ==
     /\ LET g == Ln.g
            c == cur[g]
            p == [t |-> Ln.t, k |-> Ln.k, v |-> Ln.v, h |-> Ln.h, i |-> Ln.i]
-           newrun == c.all = <<>> \/ p.t # c.t
+           first == c.n = 0
+           newrun == first \/ p.t # c.t
            run == IF newrun THEN <<>> ELSE c.pts
            r == PointS(cfg, st, g, p)
            ref == IF cfg.fn \in Trans THEN RefTransPoint(cfg, g, Append(c.all, p))
-                  ELSE IF newrun /\ c.all # <<>> THEN RefRun(cfg, g, c.t, c.pts) ELSE <<>> IN
+                  ELSE IF newrun /\ ~first THEN RefRun(cfg, g, c.t, c.pts) ELSE <<>> IN
        /\ Consistent(r.outs, ref, Ln)
        /\ st' = r.st /\ emitted' = r.outs /\ refEmitted' = ref
        /\ exp' = exp \o r.outs
-       /\ cur' = [cur EXCEPT ![g] = [t |-> p.t, pts |-> Append(run, p), all |-> Append(c.all, p), adv |-> 0]]
+       /\ cur' = [cur EXCEPT ![g] = [t |-> p.t, pts |-> Append(run, p),
+                                     all |-> IF cfg.fn \in Trans THEN Append(c.all, p) ELSE <<>>, adv |-> 0, n |-> c.n + 1]]
     /\ UNCHANGED <<cfg, mode, open, nb>>
 
 Expected == SelectSeq(exp, LAMBDA x : ExpN(cfg, x) = 1)
